@@ -43,6 +43,8 @@ def ret_type(sig):
         return "OptNat"
     if t == "usize":
         return "Nat"
+    if t == "bool":
+        return "Bool"
     if t == "Option<Self::Item>":
         return "Elem"
     if t == "Option<f64>":
@@ -77,6 +79,9 @@ def rewrite_guard_let(blk):
                 return ("block", stmts[:i], new_if)
     return blk
 # functions of the plain trait `AggBasic` (agg.rs; null-free items): emitted in the namespace `plain`
+# boolean elements (`T::Inner: BoolType` / `Self::Item: BoolType`): namespaces `vany`, `vall`, `plain.any`, `plain.all`
+BOOL_FNS = ["vany", "vall"]
+PLAIN_BOOL_FNS = ["any", "all"]
 PLAIN_FNS = ["count_value", "first", "last", "n_sum", "sum", "mean", "max", "min", "argmax", "argmin"]
 
 
@@ -117,7 +122,7 @@ def fn_src(tsrc, name):
     return sig, tsrc[i: j + 1]
 
 
-def translate(name, sig, body_src, siblings, plain=False):
+def translate(name, sig, body_src, siblings, plain=False, boolean=False):
     rt = ret_type(sig)
     params = re.findall(r"\b(\w+)\s*:\s*usize\b", sig.split("->")[0])
     eparams = re.findall(r"\b(\w+)\s*:\s*T\b(?!:)", sig.split("->")[0].split("(", 1)[1])
@@ -137,6 +142,8 @@ def translate(name, sig, body_src, siblings, plain=False):
         em.nan_vars = C.nan_assigned(blk)
         em.none_types = dict(zip(untyped, combo))
         em.plain = plain
+        if boolean:
+            em.elem_inner = "Bool"
         env = {p: "Nat" for p in params}
         env.update({p: "Elem" for p in eparams})
         env.update({p: "Rat" for p in iparams})
@@ -162,6 +169,8 @@ def translate(name, sig, body_src, siblings, plain=False):
     where = "tea-agg/src/lib.rs" if name in EXT_FNS and not plain else "tea-core/src/agg.rs"
     L.append(f"/-- `{name}` of {where}, in source order -/")
     xs_ty = "List Rat" if plain else "List (Option Rat)"
+    if boolean:
+        xs_ty = "List Bool" if plain else "List (Option Bool)"
     L.append(f"def run (sqrt : Rat → Rat) (xs : {xs_ty}){ys}{ps} : {C.ty_lean(rt)} :=")
     L.append("  let _ := sqrt; let _ := xs")
     L.append(C.indent(txt, 2))
@@ -194,13 +203,13 @@ def main():
         etsrc = None
         out.append(f"/- UNPARSED (tea-agg): {ex} -/")
     siblings, names = {}, []
-    for name in FNS + EXT_FNS:
+    for name in FNS + EXT_FNS + BOOL_FNS:
         try:
-            the_src = tsrc if name in FNS else etsrc
+            the_src = etsrc if name in EXT_FNS else tsrc
             if the_src is None:
                 raise C.Unsupported("no trait")
             sig, body = fn_src(the_src, name)
-            txt, rt, np, two = translate(name, sig, body, siblings)
+            txt, rt, np, two = translate(name, sig, body, {} if name in BOOL_FNS else siblings, boolean=name in BOOL_FNS)
             if not two:
                 siblings[name] = (f"{name}.run", rt, np)
         except C.Unsupported as ex:
@@ -223,12 +232,13 @@ def main():
         ptsrc = None
         out.append(f"/- UNPARSED: {ex} -/")
     psib, pnames = {}, []
-    for name in PLAIN_FNS:
+    for name in PLAIN_FNS + PLAIN_BOOL_FNS:
         try:
             if ptsrc is None:
                 raise C.Unsupported("no trait")
             sig, body = fn_src(ptsrc, name)
-            txt, rt, np, two = translate(name, sig, body, psib, plain=True)
+            txt, rt, np, two = translate(name, sig, body, {} if name in PLAIN_BOOL_FNS else psib, plain=True,
+                                         boolean=name in PLAIN_BOOL_FNS)
             psib[name] = (f"{name}.run", rt, np)
         except C.Unsupported as ex:
             reason = str(ex).replace('"', "'")
